@@ -1226,8 +1226,20 @@ class Source:
     def fn(self, name, scope=None):
         lo, hi = 0, len(self.src)
         if scope:
-            _, ob, cb = find_block(self.src, self.masked, scope)
-            lo, hi = ob + 1, cb
+            # several blocks may carry the same header (`impl MT940 { .. }` twice): take the first one that holds the fn
+            start = 0
+            last_err = None
+            while True:
+                try:
+                    _, ob, cb = find_block(self.src, self.masked, scope, start)
+                except ExtractError as e:
+                    raise last_err or e
+                try:
+                    s, fob, fcb = find_fn(self.src, self.masked, name, ob + 1, cb)
+                    return self.src[s:fob], self.src[fob:fcb + 1]
+                except ExtractError as e:
+                    last_err = e
+                    start = cb + 1
         s, ob, cb = find_fn(self.src, self.masked, name, lo, hi)
         return self.src[s:ob], self.src[ob:cb + 1]
 
